@@ -356,6 +356,22 @@ def run_case(case) -> Outcome:
             if check_text(out, text, {"t": "text", "text": text, "known_bound": kb, "filename": fn}, known_bound=kb, filename=fn):
                 nt += 1
             nt += 0
+        # writing the output is part of the run: blocks that end on / start at / cross the offset whose three bytes spell the IPS end
+        # marker (0x454F46, reachable with a wide .map), and the last byte of the 16 MiB space, through the patch and the image writer
+        from vlib import watchdog as _wd
+
+        wide = ".map identifier=1 bank_range=0x00, 0xff addr_range=0x0000, 0xffff mask=0x10000\n"
+        for a, n in ((0x454F45, 1), (0x454F44, 2), (0x454F46, 1), (0x454F44, 5), (0x454F47, 3), (0x454D45, 1), (0x454D44, 4), (0xFFFFFE, 2), (0x454F46 - 0xFFFF, 0x10000), (0x454F46 - 0x10000, 0x10000)):
+            body = (".db " + ", ".join(["0x5a"] * n) + "\n") if n <= 8 else ".incbin 'big15.bin'\n"
+            srcw = wide + f"*=0x{a:06x}\n" + body
+            for fmt, cop in (("ips", False), ("ips", True), ("sfc", False)):
+                if fmt == "sfc" and a > 0x500000:
+                    continue
+                files_w = {"big15.bin": {"pat": [3, n]}} if n > 8 else None
+                st_, val = _wd.Watchdog(400_000, cpu_seconds=30.0).run(driver.assemble_file_api, srcw, fmt=fmt, mapping=None, copier=cop, files=files_w)
+                out.evals += 1
+                if st_ == "budget":
+                    out.bad(f"output:{fmt}:no-termination", {"t": "text", "text": srcw}, f"writing {n} byte(s) at offset {a:#x} as {fmt}{' with copier header' if cop else ''} did not finish ({val})\n{srcw}")
         out.nontrivial = len(structured_inputs(case["depth"]))
         out.labels.append("structured-deep")
         out.sample = {"depth": case["depth"], "kinds": [n for n, _ in structured_inputs(case["depth"])]}
